@@ -18,21 +18,43 @@ def nontrivial(kind, ins, outs):
     return outs[4] != "-" or any(t.startswith("5") for t in outs[0].split(","))
 
 
+def _parse_net(field):
+    fin = ""
+    if "!" in field:
+        field, fin = field.split("!", 1)
+    chunks = [bytes.fromhex(h) if h != "-" else b"" for h in field.split("~")]
+    return chunks, fin
+
+
+def _net_field(chunks, fin):
+    f = "~".join((c.hex() or "-") for c in chunks)
+    return f + ("!" + fin if fin else "")
+
+
 def shrink_candidates(inp):
-    """Drop one LF-terminated chunk of the client stream at a time."""
+    """Drop one LF-terminated line of the client stream at a time; for a scripted connection (chunks separated by
+    pauses, '!idle' / '!err' endings) also merge two chunks (drop a pause) and drop the ending."""
     parts = inp.split(" ")
     if len(parts) < 13:
         return
     s = parts[12]
-    if s == "-":
+    if s == "-" or "+" in s:
         return
-    raw = bytes.fromhex(s)
-    chunks = raw.split(b"\n")
-    for i in range(len(chunks) - 1):
-        cand = b"\n".join(chunks[:i] + chunks[i + 1:])
+    chunks, fin = _parse_net(s)
+
+    def emit(cs, fn):
         q = list(parts)
-        q[12] = cand.hex() or "-"
-        yield " ".join(q)
+        q[12] = _net_field(cs, fn)
+        return " ".join(q)
+    if fin:
+        yield emit(chunks, "")
+    for i in range(len(chunks) - 1):
+        yield emit(chunks[:i] + [chunks[i] + chunks[i + 1]] + chunks[i + 2:], fin)
+    for ci, raw in enumerate(chunks):
+        lines = raw.split(b"\n")
+        for i in range(len(lines) - 1):
+            cand = b"\n".join(lines[:i] + lines[i + 1:])
+            yield emit(chunks[:ci] + [cand] + chunks[ci + 1:], fin)
 
 
 def post(run):
@@ -42,7 +64,7 @@ def post(run):
     p = os.path.join(run.dir, "main.cases.txt")
     if not os.path.exists(p):
         return
-    codes, naming, stores, sizes, stored, kinds = (collections.Counter() for _ in range(6))
+    codes, naming, stores, sizes, stored, kinds, conn = (collections.Counter() for _ in range(7))
     accepted_tx = 0
     for line in open(p):
         a, _, b = line.rstrip("\n").partition(" => ")
@@ -53,6 +75,8 @@ def post(run):
         naming[ins[1]] += 1
         stores[ins[11]] += 1
         n = 0 if ins[12] == "-" else len(ins[12]) // 2
+        conn["pauses=%d" % min(ins[12].count("~"), 3)] += 1
+        conn["ends-by-" + (ins[12].split("!", 1)[1] if "!" in ins[12] else "eof")] += 1
         sizes["<100" if n < 100 else "<1k" if n < 1000 else "<10k" if n < 10000 else "<100k" if n < 100000 else ">=100k"] += 1
         for sess in outs[0].split("|"):
             toks = sess.split(",")
@@ -62,7 +86,7 @@ def post(run):
                     accepted_tx += 1
         stored[str(outs[4].count(":[") if outs[4] != "-" else 0)] += 1
     run.cov.setdefault("extra", {})["distribution"] = {
-        "kinds": dict(kinds), "naming_mode": dict(naming), "store": dict(stores), "stream_bytes": dict(sizes),
+        "kinds": dict(kinds), "naming_mode": dict(naming), "store": dict(stores), "stream_bytes": dict(sizes), "connection": dict(conn),
         "reply_codes": dict(codes.most_common(30)), "transactions_acknowledged_250_after_data": accepted_tx,
         "messages_in_store_after_case": dict(sorted(stored.items(), key=lambda kv: int(kv[0]))[:12]),
     }
